@@ -552,11 +552,12 @@ fn main() {
         vec![-3.5, 0.125, 0.125, 8.75, -3.5],
         vec![6.0, 6.0, 6.0],
         vec![0.1, 0.2, 0.3, 0.4, 0.5, 0.6, 0.7],
+        vec![7.5],
     ];
     let lcases = lanes.into_iter().flat_map(|l| (0..3u8).map(move |kind| (l.clone(), kind)));
     rep.run_sub(
         "not-none-and-skipnan-lanes",
-        "9 lanes of fractional values (distinct, tied in adjacent pairs, constant) x {Array1<NotNone<N64>> through quantile_mut, a float lane through quantile_axis_skipnan_mut, the same lane with NaNs interleaved} x 5 strategies x q in {0, 1/8, .., 1, 0.3, 0.475, 0.57}; pivot policies first / middle / last: minimum at q=0, maximum at q=1, within [min, max], non-decreasing in q, Lower <= X <= Higher (Linear up to 1 ulp)",
+        "10 lanes of fractional values (distinct, tied in adjacent pairs, constant, a single element) x {Array1<NotNone<N64>> through quantile_mut, a float lane through quantile_axis_skipnan_mut, the same lane with NaNs interleaved} x 5 strategies x q in {0, 1/8, .., 1, 0.3, 0.475, 0.57}; pivot policies first / middle / last: minimum at q=0, maximum at q=1, within [min, max], non-decreasing in q, Lower <= X <= Higher (Linear up to 1 ulp)",
         lcases,
         |(lane, kind), lx| {
             use ndarray_stats::{MaybeNan, QuantileExt};
